@@ -336,9 +336,18 @@ def check(ctx):
         for k in K_EXT:
             check_extend(ctx, cfg, k)
         check_from_iter(ctx, cfg, K_FROM, K_TRY)
-        if cfg != "F0":
+        if (not cfg.startswith("F0")):
             check_try(ctx, cfg, K_TRYB, True)
             check_from_iter(ctx, cfg, K_FROMB, K_TRYB)
+        # C07.N: the fallible constructors answer a wrong count with Err, never with a panic of their own: on the fully expanded, tree-shaped
+        # body no explicit panic or compiler-inserted check can fail and no std call is made whose panic condition is not excluded (panics of
+        # the caller's iterator are the caller's)
+        from ..rules import reachable_panics
+        for k_ in (K_TRY,) + ((K_TRYB,) if (not cfg.startswith("F0")) else ()):
+            if ctx.db(cfg).get(k_) is not None:
+                at_ = ctx.analysis_inl(cfg, k_, split=True, force="*", tag="np")
+                pan = reachable_panics(at_)
+                ctx.ob("C07.N", k_, not pan, "no panicking exit of its own in the fallible constructor: %s" % ((not pan) or pan), at=ctx.db(cfg).get(k_)["at"], cfg=cfg)
         # C07.W ("drops every item it pulled exactly once"): once the builder is finished (guard disarmed) the items are handed on before
         # anything can return early or unwind - else the N items already pulled are leaked on that path
         from . import c04
